@@ -1,6 +1,8 @@
 package curves
 
 import (
+	"math"
+
 	"github.com/markusressel/fan2go/internal/configuration"
 	"github.com/markusressel/fan2go/internal/sensors"
 	"github.com/markusressel/fan2go/internal/ui"
@@ -32,6 +34,12 @@ func (c *PidSpeedCurve) Evaluate() (value int, err error) {
 
 	// clamp to (0..1)
 	loopValue = util.Coerce(loopValue, 0, 1)
+	if math.IsNaN(loopValue) {
+		// the terms of the loop overflowed in opposite directions (+Inf - Inf),
+		// so there is no meaningful output; err on the safe side
+		ui.Warning("Curve %s: PID loop output is not a number, falling back to full speed", c.Config.ID)
+		loopValue = 1
+	}
 
 	// map to expected output range
 	curveValue := int(loopValue * 255)
